@@ -18,7 +18,8 @@ Definition with_todo (w : world) (t : list wmsg) : world :=
 
 Lemma client_todo : forall cf w t, client_step cf (with_todo w t) = with_todo (client_step cf w) t.
 Proof.
-  intros cf w t. unfold client_step, with_todo. cbn [w_ph].
+  intros cf [todo sq reps lg ph out start lost] t. unfold client_step, with_todo, call, set_ph, ncalls.
+  cbn [w_ph w_todo w_seq w_reps w_log w_out w_start w_lost].
   repeat match goal with
          | |- context [match ?x with _ => _ end] => destruct x
          | |- context [let '(_, _) := ?x in _] => destruct x
@@ -27,7 +28,8 @@ Qed.
 
 Lemma poll_todo : forall w t, consumer_poll (with_todo w t) = with_todo (consumer_poll w) t.
 Proof.
-  intros w t. unfold consumer_poll, with_todo. cbn [w_ph].
+  intros [todo sq reps lg ph out start lost] t. unfold consumer_poll, with_todo, set_ph.
+  cbn [w_ph w_todo w_seq w_reps w_log w_out w_start w_lost].
   repeat match goal with
          | |- context [match ?x with _ => _ end] => destruct x
          end; reflexivity.
@@ -52,42 +54,50 @@ Definition same_but_todo (cf : cfg) (w w' : world) : Prop :=
 Lemma with_todo_id : forall w, with_todo w (w_todo w) = w.
 Proof. destruct w; reflexivity. Qed.
 
+Lemma client_keeps_todo : forall cf x, w_todo (client_step cf x) = w_todo x.
+Proof.
+  intros cf [todo sq reps lg ph out start lost]. unfold client_step, call, set_ph.
+  cbn [w_ph w_todo w_seq w_reps w_log w_out w_start w_lost].
+  repeat match goal with
+         | |- context [match ?y with _ => _ end] => destruct y
+         | |- context [let '(_, _) := ?y in _] => destruct y
+         end; reflexivity.
+Qed.
+
+Lemma poll_keeps_todo : forall x, w_todo (consumer_poll x) = w_todo x.
+Proof.
+  intros [todo sq reps lg ph out start lost]. unfold consumer_poll, set_ph.
+  cbn [w_ph w_todo w_seq w_reps w_log w_out w_start w_lost].
+  repeat match goal with
+         | |- context [match ?y with _ => _ end] => destruct y
+         end; reflexivity.
+Qed.
+
 Lemma step_same : forall cf w w' a, same_but_todo cf w w' -> same_but_todo cf (step cf w a) (step cf w' a).
 Proof.
   intros cf w w' a [He Hf]. destruct a; cbn [step].
   - (* the socket reader *)
-    rewrite He. unfold tick, with_todo at 1 2. cbn [w_todo w_seq w_reps w_log w_ph w_out w_start w_lost].
-    change (ncalls {| w_todo := w_todo w'; w_seq := w_seq w; w_reps := w_reps w; w_log := w_log w;
-                      w_ph := w_ph w; w_out := w_out w; w_start := w_start w; w_lost := w_lost w |})
-      with (ncalls w).
-    inversion Hf as [E1 E2|m m' r r' Hm Hr E1 E2].
-    + split; [|rewrite <- E1; constructor]. cbn. rewrite <- E1. destruct w; cbn in *; subst; reflexivity.
+    destruct w as [todo sq reps lg ph out start lost]. destruct w' as [todo' sq' reps' lg' ph' out' start' lost'].
+    unfold with_todo in He. cbn [w_todo w_seq w_reps w_log w_ph w_out w_start w_lost] in He, Hf.
+    inversion He; subst. clear He.
+    unfold tick, ncalls. cbn [w_todo w_seq w_reps w_log w_ph w_out w_start w_lost].
+    inversion Hf as [|m m' r r' Hm Hr]; subst.
+    + split; [reflexivity|constructor].
     + destruct Hm as [<-|[I1 I2]].
       * destruct m as [s|p].
         -- split; [reflexivity|exact Hr].
-        -- destruct (w_reps w <? ncalls w).
+        -- destruct (reps <? N.of_nat (length lg)).
            ++ split; [reflexivity|exact Hr].
-           ++ split; [cbn; rewrite <- E1; unfold with_todo; cbn; reflexivity|rewrite <- E1; cbn [w_todo]; constructor; [left; reflexivity|exact Hr]].
+           ++ split; [reflexivity|]. cbn [w_todo]. constructor; [left; reflexivity|exact Hr].
       * destruct m as [s|p]; [|discriminate]. destruct m' as [s'|p']; [|discriminate].
         rewrite (deliver_irrelevant _ _ _ _ I1), (deliver_irrelevant _ _ _ _ I2).
         split; [reflexivity|exact Hr].
-  - rewrite He, client_todo. split; [|cbn [w_todo with_todo]].
+  - rewrite He, client_todo. split.
     + unfold with_todo. cbn. reflexivity.
-    + assert (G : forall x, w_todo (client_step cf x) = w_todo x).
-      { intro x. unfold client_step.
-        repeat match goal with
-               | |- context [match ?y with _ => _ end] => destruct y
-               | |- context [let '(_, _) := ?y in _] => destruct y
-               end; reflexivity. }
-      rewrite G. exact Hf.
-  - rewrite He, poll_todo. split; [|cbn [w_todo with_todo]].
+    + cbn [w_todo with_todo]. rewrite client_keeps_todo. exact Hf.
+  - rewrite He, poll_todo. split.
     + unfold with_todo. cbn. reflexivity.
-    + assert (G : forall x, w_todo (consumer_poll x) = w_todo x).
-      { intro x. unfold consumer_poll.
-        repeat match goal with
-               | |- context [match ?y with _ => _ end] => destruct y
-               end; reflexivity. }
-      rewrite G. exact Hf.
+    + cbn [w_todo with_todo]. rewrite poll_keeps_todo. exact Hf.
 Qed.
 
 Lemma run_same : forall cf sched w w',
@@ -125,8 +135,8 @@ Theorem forged_ignored : forall cf h h' sched,
 Proof.
   intros cf h h' sched Hpi Hf.
   assert (H0 : same_but_todo cf (init_world h) (init_world h')).
-  { split; [reflexivity|]. cbn [w_todo init_world]. eapply Forall2_impl; [|exact Hf].
-    intros m m' [E|[F1 [F2|F2]]]; [left; exact E|right|right].
+  { split; [reflexivity|]. cbn [w_todo init_world]. induction Hf as [|m m' r r' Hm Hr IH]; constructor; [|exact IH].
+    destruct Hm as [E|[F1 [F2|F2]]]; [left; exact E|right|right].
     - split; apply forged_irrelevant; assumption.
     - split; [apply forged_irrelevant; assumption|subst; apply noise_irrelevant]. }
   destruct (run_same cf sched _ _ H0) as [He _]. unfold run. rewrite He. split; reflexivity.
